@@ -31,6 +31,13 @@ def gen_date(rng):
     """a date bound as it may stand in a .tdda file: the fixed spellings, or a timestamp with any microsecond part"""
     if rng.random() < 0.5:
         return rng.choice(DATES)
+    if rng.random() < 0.3:
+        # a bound of a timezone-aware column: seconds or a fraction, then a UTC offset (whole and half hours, either sign)
+        return '%04d-%02d-%02d %02d:%02d:%02d%s%s' % (
+            rng.choice([1999, 2000, 2021, 2038]), rng.randint(1, 12), rng.randint(1, 28), rng.randint(0, 23), rng.randint(0, 59),
+            rng.randint(0, 59), rng.choice(['', '', '.%06d' % rng.randrange(10 ** 6), '.5']),
+            rng.choice(['+00:00', '-00:00', '+01:00', '-05:00', '+05:30', '-03:30', '-00:30', '+05:45', '-09:30', '+14:00', '-12:00',
+                        '+23:59', '-23:59', '+24:00', '-24:00', '+25:00', '+00:60', '+12:99']))
     return '%04d-%02d-%02d %02d:%02d:%02d.%06d' % (rng.choice([1999, 2000, 2021, 2038]), rng.randint(1, 12), rng.randint(1, 28),
                                                      rng.randint(0, 23), rng.randint(0, 59), rng.randint(0, 59),
                                                      rng.choice([rng.randrange(10 ** 6), rng.randrange(10 ** 6), 1001, 249, 999999]))
@@ -135,8 +142,18 @@ def atom(x):
     if isinstance(x, float):
         return {'f': repr(x)}
     if isinstance(x, dt.datetime):
-        return {'dt': [x.year, x.month, x.day, x.hour, x.minute, x.second, x.microsecond]}
+        return dt_json(x)
     raise ValueError(x)
+
+
+def dt_json(x):
+    d = {'dt': [x.year, x.month, x.day, x.hour, x.minute, x.second, x.microsecond]}
+    if x.tzinfo is not None:
+        secs = x.utcoffset().total_seconds()
+        if secs != int(secs) or int(secs) % 60:
+            raise ValueError('offset with seconds: outside the model')
+        d['off'] = int(secs) // 60
+    return d
 
 
 def jv_obj(v, from_dict=False):
@@ -166,6 +183,10 @@ def _instant(v):
     """a datetime.date bound and the midnight datetime it is read back as are the same value"""
     if isinstance(v, dt.date) and not isinstance(v, dt.datetime):
         return dt.datetime(v.year, v.month, v.day)
+    if isinstance(v, dt.datetime) and v.tzinfo is not None:
+        # an aware bound is its civil fields and its UTC offset (a zone object and the fixed offset it is read back with
+        # are the same value)
+        return ('aware', v.replace(tzinfo=None), v.utcoffset())
     return v
 
 
@@ -184,9 +205,8 @@ class C09(core.Prop):
             'added, and is verified against a generated frame before and after. non-trivial = >= 2 constraints; '
             'distinct by content')
     trusted_base = [
-        'date bounds carrying a UTC offset (written for timezone-aware columns, read back by get_date since the fix 5640a7f) '
-        'are outside the TddaFile model: the model covers the naive layouts RD / RDT / RDTM only; aware bounds are exercised '
-        'by the C01 oracle (timezone-aware column family through the .tdda file leg) and by C02',
+        'date bounds carrying a UTC offset are modelled for whole-minute offsets (the RTZ layout of get_date, +HH:MM / -HH:MM as '
+        'str() writes them); an offset with seconds (local mean time zones) is not matched by RTZ and stays text in code and model',
         'the json library (json.dumps / json.loads) is not modelled: its contract loads(dumps(x)) = x and the layout of '
         'dumps(indent=4) (one structural newline per line, no trailing blanks, strings quoted) are assumed and exercised',
     ]
@@ -205,7 +225,7 @@ class C09(core.Prop):
 
     def gen_case(self, rng, i):
         if rng.random() < 0.25:
-            fr = cx.gen_frame(rng, fams=[f for f in cx.FAMILIES if f not in ('datetime-tz', 'str')])
+            fr = cx.gen_frame(rng, fams=[f for f in cx.FAMILIES if f not in ('str',)])
             return {'discover': fr, 'rex': rng.random() < 0.4}
         return {'set': gen_set(rng), 'cycles': rng.randint(1, 3), 'unknown_seed': rng.randrange(10 ** 6)}
 
@@ -234,13 +254,15 @@ class C09(core.Prop):
     def _date_strings(self, case):
         import random
         rng = random.Random('d' + json.dumps(case, sort_keys=True, default=str))
-        base = rng.choice(DATES + ['2021-02-30', '2020-13-01', '2020-1-2', '2020-01-02 3:04:05', '2020-01-02 03:04:05.5',
+        base = rng.choice(DATES + [d_ + o_ for d_ in DATES[1:4] + ['2020-01-02', '2021-02-30 10:00:00', '2020-01-02 03:04:05\n']
+                                   for o_ in ('+00:00', '-03:30', '-00:30', '+05:45', '+24:00', '-23:59', '+1:00', '+01:0', '+0100',
+                                              ' +01:00', '+01:00:00', 'Z', '+01:00\n', '-00:00')] + ['2021-02-30', '2020-13-01', '2020-1-2', '2020-01-02 3:04:05', '2020-01-02 03:04:05.5',
                                    '2020-01-02 03:04', '20200102', '2020-01-02x', '2020-01-02\n', '0000-01-01',
                                    '2020-01-02 24:00:00', '2020-01-02 03:04:05.1234567', 'abc', ''])
         out = [base]
         if base and rng.random() < 0.5:
             i = rng.randrange(len(base))
-            out.append(base[:i] + rng.choice('0123456789-/ T:.x') + base[i + 1:])
+            out.append(base[:i] + rng.choice('0123456789-/ T:.x+\n') + base[i + 1:])
         return out
 
     def _objects(self, case):
@@ -314,10 +336,12 @@ class C09(core.Prop):
             with quiet(), contextlib.redirect_stdout(io.StringIO()):
                 r = B.get_date(s_)
             if isinstance(r, dt.datetime):
-                out.append({'dt': [r.year, r.month, r.day, r.hour, r.minute, r.second, r.microsecond]})
+                out.append(dt_json(r))
             else:
                 import re as _re
-                matched = any(_re.match(rx, s_) for rx in (B.RD, B.RDT, B.RDTM))
+                mz = _re.match(B.RTZ, s_)
+                body = mz.group(1) if mz else s_
+                matched = any(_re.match(rx, body) for rx in ((B.RDT, B.RDTM) if mz else (B.RD, B.RDT, B.RDTM)))
                 out.append('invalid' if matched else 'not-date')
         return out
 
